@@ -74,6 +74,12 @@ func newLoadOpts(h *hist, length int, conc int, exclude iface.ExcludeFunc, timeo
 	if length >= 0 {
 		n := length
 		o.length = &n
+	} else if vx.Param("NEGLEN", 0) == 1 {
+		// "no limit" is spelt nil, -1 or any other negative length (seed C09-k)
+		if k := vx.Choice("neglen", 3); k > 0 {
+			n := -k
+			o.length = &n
+		}
 	}
 	o.lo = &ipfslog.LogOptions{ID: "X", IO: h.io(), SortFn: h.sortFn()}
 	o.fo = &ipfslog.FetchOptions{Length: o.length, Concurrency: conc, ShouldExclude: exclude, Timeout: timeDur(timeoutNs)}
